@@ -237,7 +237,13 @@ def body(PROP, plan):
             n_edge, n_walk = len(edges), len(walks)
             # second pass: the real L1 info store behind the driver
             l1 = [dict(b, proc="l1") for b in rng.sample(edges + walks, min(len(edges + walks), p["l1"]))]
-            behs = plan.get("regress", lambda: [])() + edges + walks + l1
+            # free scheduling: the same chains (moves of the environment and restarts), the node scheduled at random between
+            # them whatever calls it makes - no step order of the specification is assumed
+            ENV = ("mine", "finalize", "fork", "restart")
+            pool = [b for b in edges + walks if sum(1 for st in b["steps"] if st["a"] in ENV) >= 2]
+            free = [dict(b, free=True, steps=[st for st in b["steps"] if st["a"] in ENV])
+                    for b in rng.sample(pool, min(len(pool), p.get("free", 300)))]
+            behs = plan.get("regress", lambda: [])() + edges + walks + l1 + free
         for b in behs:
             b.setdefault("proc", "rec")
             b.setdefault("buf", 1)
@@ -326,7 +332,7 @@ def body(PROP, plan):
                          exhaustive=True) for m in mc_out],
             model_invariants=plan["invariants"],
             faithful_model_of_recorded_findings=probe_out,
-            behaviours=dict(edge_cover_sampled=n_edge, random_walks=n_walk, with_real_l1_store=sum(1 for b in behs if b["proc"] == "l1"),
+            behaviours=dict(edge_cover_sampled=n_edge, random_walks=n_walk, free_scheduling=sum(1 for b in behs if b.get("free")), with_real_l1_store=sum(1 for b in behs if b["proc"] == "l1"),
                             **notes),
             replay=dict(wall_s=replay_s, process_calls=nproc, with_events=nontriv, reorg_calls=nreorg, reorgs_deleting_rows=nreorg_rows,
                         restarts=sum(1 for e in evs if e["ev"] == "restart"), rpc_calls=sum(1 for e in evs if e["ev"] == "rpc"),
